@@ -1,5 +1,6 @@
 import Verif.Driver.Codec
 import Verif.Model.Parser
+import Verif.Model.Lexer
 /-! S-expression codecs for tokens and the syntax-level AST (C05). -/
 namespace SyntaxCodec
 open Sexp Syntax
@@ -27,6 +28,98 @@ def kOf (s : String) : Option K :=
   | "labelReplace" => some .labelReplace | "bytesConv" => some .bytesConv | "durationConv" => some .durationConv
   | "durationSecondsConv" => some .durationSecondsConv | "parserFlag" => some .parserFlag
   | _ => none
+
+def kName : K → String
+  | .comma => "comma"
+  | .dot => "dot"
+  | .lbrace => "lbrace"
+  | .rbrace => "rbrace"
+  | .eq => "eq"
+  | .neq => "neq"
+  | .re => "re"
+  | .nre => "nre"
+  | .pipeExact => "pipeExact"
+  | .pipeMatch => "pipeMatch"
+  | .pipe => "pipe"
+  | .unwrap => "unwrap"
+  | .lparen => "lparen"
+  | .rparen => "rparen"
+  | .by_ => "by"
+  | .without => "without"
+  | .bool => "bool"
+  | .lbracket => "lbracket"
+  | .rbracket => "rbracket"
+  | .offset => "offset"
+  | .on => "on"
+  | .ignoring => "ignoring"
+  | .groupLeft => "groupLeft"
+  | .groupRight => "groupRight"
+  | .or => "or"
+  | .and => "and"
+  | .unless => "unless"
+  | .add => "add"
+  | .sub => "sub"
+  | .mul => "mul"
+  | .div => "div"
+  | .mod => "mod"
+  | .pow => "pow"
+  | .cmpEq => "cmpEq"
+  | .gt => "gt"
+  | .gte => "gte"
+  | .lt => "lt"
+  | .lte => "lte"
+  | .json => "json"
+  | .regexp => "regexp"
+  | .logfmt => "logfmt"
+  | .unpack => "unpack"
+  | .pattern => "pattern"
+  | .labelFormat => "labelFormat"
+  | .lineFormat => "lineFormat"
+  | .ip => "ip"
+  | .decolorize => "decolorize"
+  | .distinct => "distinct"
+  | .drop => "drop"
+  | .keep => "keep"
+  | .rate => "rate"
+  | .rateCounter => "rateCounter"
+  | .countOverTime => "countOverTime"
+  | .bytesRate => "bytesRate"
+  | .bytesOverTime => "bytesOverTime"
+  | .avgOverTime => "avgOverTime"
+  | .sumOverTime => "sumOverTime"
+  | .minOverTime => "minOverTime"
+  | .maxOverTime => "maxOverTime"
+  | .stdvarOverTime => "stdvarOverTime"
+  | .stddevOverTime => "stddevOverTime"
+  | .quantileOverTime => "quantileOverTime"
+  | .firstOverTime => "firstOverTime"
+  | .lastOverTime => "lastOverTime"
+  | .absentOverTime => "absentOverTime"
+  | .vector => "vector"
+  | .sum => "sum"
+  | .avg => "avg"
+  | .max => "max"
+  | .min => "min"
+  | .count => "count"
+  | .stddev => "stddev"
+  | .stdvar => "stdvar"
+  | .bottomk => "bottomk"
+  | .topk => "topk"
+  | .sort => "sort"
+  | .sortDesc => "sortDesc"
+  | .labelReplace => "labelReplace"
+  | .bytesConv => "bytesConv"
+  | .durationConv => "durationConv"
+  | .durationSecondsConv => "durationSecondsConv"
+  | .parserFlag => "parserFlag"
+
+def tokS : Tok → Sexp
+  | .ident b => .list [sym "id", ofBytes b]
+  | .str b => .list [sym "str", ofBytes b]
+  | .num b => .list [sym "num", ofBytes b]
+  | .dur b => .list [sym "dur", ofBytes b]
+  | .bytes b => .list [sym "bytes", ofBytes b]
+  | .kw k => .list [sym "kw", sym (kName k)]
 
 def tokOf (s : Sexp) : Tok :=
   match s.head?, s.args with
